@@ -367,8 +367,9 @@ fn name_candidates() -> Vec<String> {
         v.push(format!("{r}x"));
         v.push(format!("_{r}"));
         v.push(r.to_uppercase());
-        if r.len() > 2 {
-            v.push(r[..r.len() - 1].to_string());
+        // every proper prefix (a new alias keyword in the grammar would most likely be one of them)
+        for i in 2..r.len() {
+            v.push(r[..i].to_string());
         }
     }
     v.push("a".repeat(300));
